@@ -1125,3 +1125,7 @@ def box_into_vec(ex, args):
     b = args[0]; w = b.f[0]
     v = w.cell[0] if isinstance(w, UninitWrap) else w
     return VecV(list(v.items))
+
+
+@model(r'<.* as Drop>::drop|(?:std::ptr::|core::ptr::)?drop_in_place::<.*>|(?:alloc::alloc::|std::alloc::)?(?:box_free|dealloc)(?:::<.*>)?')
+def drop_glue(ex, args): return UNIT
